@@ -450,9 +450,10 @@ func vacuityGuards(units []*UnitResult, jobs []*VCJob, dir string) []string {
 		}
 	}
 	type chk struct {
-		u    *UnitResult
-		file string
-		st   string
+		u      *UnitResult
+		file   string
+		st     string
+		second bool
 	}
 	var chks []*chk
 	for u, js := range perUnit {
@@ -491,7 +492,7 @@ func vacuityGuards(units []*UnitResult, jobs []*VCJob, dir string) []string {
 			b.WriteString("(check-sat)\n")
 			f := filepath.Join(dir, fmt.Sprintf("vac_%s_%d.smt2", sanitize(u.Name), n))
 			os.WriteFile(f, []byte(b.String()), 0644)
-			chks = append(chks, &chk{u: u, file: f})
+			chks = append(chks, &chk{u: u, file: f, second: n < 4})
 			n++
 			if n >= 48 {
 				break
@@ -507,6 +508,13 @@ func vacuityGuards(units []*UnitResult, jobs []*VCJob, dir string) []string {
 			sem <- struct{}{}
 			defer func() { <-sem }()
 			c.st, _ = runSolver(context.Background(), solvers["z3-new"], c.file, 2)
+			// a contradiction among the axioms may be found under one seed only (the bePad axiom, 0.6): the first paths of
+			// every unit are also tried with the second seed of the portfolio
+			if c.st != "unsat" && c.second {
+				if st2, _ := runSolver(context.Background(), solvers["z3-new#7"], c.file, 3); st2 == "unsat" {
+					c.st = "unsat"
+				}
+			}
 		}(c)
 	}
 	wg.Wait()
